@@ -61,6 +61,75 @@ def _forms(ref, text, lexer):
     return None
 
 
+def custom_configs():
+    """(label, rule table, keyword tables) of a caller's own Lexer objects: the property's clause "a character that
+    no lexical rule recognises becomes a one-character Error token" is a statement about whatever table is active"""
+    from sqlparse import keywords as K, tokens as T
+    return [
+        ('cleared', [], []),
+        ('words-and-blanks', [(r'\w+', T.Name), (r'\s', T.Whitespace)], []),
+        ('default-without-operator-rules', K.SQL_REGEX[:-3], [K.KEYWORDS]),
+        ('default-head-and-tail', K.SQL_REGEX[:30] + K.SQL_REGEX[-5:], [{'FOO': T.Keyword, 'SELECT': T.Name}, K.KEYWORDS_COMMON]),
+        ('strings-only', [(r"'(''|[^'])*'", T.String.Single), (K.SQL_REGEX[-6][0], K.PROCESS_AS_KEYWORD)], [K.KEYWORDS_ORACLE]),
+    ]
+
+
+def custom_tables(tier):
+    import itertools
+    from sqlparse import lexer
+    alpha = spaces.LEX + ['é', '\x00', '\ud800', '{', '~', '\\']
+    n = 2 if tier == 'quick' else 3
+    texts = [''.join(t) for k in range(1, n + 1) for t in itertools.product(alpha, repeat=k)]
+    info = {'configurations': [], 'texts_each': len(texts), 'cases': 0}
+    viols = []
+    for label, table, tables in custom_configs():
+        lx = lexer.Lexer()
+        lx.clear()
+        lx.set_SQL_REGEX(table)
+        for tb in tables:
+            lx.add_keywords(tb)
+        ref = oracles.RefLexer(table, tables)
+        errs = 0
+        for t in texts:
+            bad = oracles.check_c01(ref, t, lx.get_tokens)
+            info['cases'] += 1
+            if bad and errs < 3:
+                errs += 1
+                viols.append({'kind': bad[0], 'sig': f'own-lexer:{label}|{bad[1]}'[:100], 'detail': bad[2], 'text': t,
+                              'config': label, 'size': len(t)})
+        info['configurations'].append(label)
+    return info, viols
+
+
+def casefold_block():
+    """letters that re.IGNORECASE identifies with an ASCII letter although they are not ASCII (U+0130, U+0131, U+017F,
+    U+212A) inside every multi-word keyword phrase and every dictionary word: code next to the regexes (upper(),
+    table lookups) sees them differently than the rule that matched"""
+    import re
+    from sqlparse import keywords as K
+    equiv = {}
+    for c in 'abcdefghijklmnopqrstuvwxyz':
+        rx = re.compile(c, re.IGNORECASE | re.UNICODE)
+        equiv[c] = [chr(cp) for cp in range(0x80, 0x30000) if rx.fullmatch(chr(cp))]
+    phrases = ['not null', 'union all', 'double precision', 'group by', 'order by', 'primary key', 'handler for',
+               'end if', 'end loop', 'end while', 'end case', 'create or replace', 'left outer join', 'natural join',
+               'cross join', 'full outer join', 'nulls first', 'asc nulls last', 'desc nulls first', 'go 2',
+               "at time zone 'x'", 'not like', 'not ilike', 'not rlike', 'not regexp', 'is not null',
+               'lateral view explode', 'lateral view outer inline', 'set(', 'x in (1)', 'case when', 'values (1)',
+               'using (a)', 'from t as u', 'character set x', 'for each row', 'start transaction']
+    words = sorted({w.lower() for tb in (K.KEYWORDS, K.KEYWORDS_COMMON, K.KEYWORDS_ORACLE, K.KEYWORDS_MYSQL, K.KEYWORDS_PLPGSQL,
+                                         K.KEYWORDS_HQL, K.KEYWORDS_MSACCESS, K.KEYWORDS_SNOWFLAKE, K.KEYWORDS_BIGQUERY)
+                    for w in tb if w.isidentifier()})
+    texts = []
+    for base in phrases + words:
+        for i, ch in enumerate(base):
+            for alt in equiv.get(ch, []):
+                for variant in (base[:i] + alt + base[i + 1:], (base[:i] + alt + base[i + 1:]).upper().replace(alt.upper(), alt)):
+                    texts.append(variant)
+                    texts.append('a ' + variant + ' b')
+    return {'equivalents': {k: [f'U+{ord(x):04X}' for x in v] for k, v in equiv.items() if v}, 'texts': len(texts)}, texts
+
+
 LAZY_TEXTS = ['a b', "c 'd'", 'select 1', "x -- y\nz", '$$q$$;', 'é ', '"', '']
 
 
@@ -112,8 +181,19 @@ def run(tier, seed):
     merged, sizes = e1.run(sp, _evaluate, seed, bits=27 if tier == 'thorough' else 24, setup=_setup,
                            extra_cases=extra)
     lz, lzv = lazy_streams(tier)
+    ci, cv = custom_tables(tier)
+    lzv += cv
+    cf, cf_texts = casefold_block()
+    from sqlparse import lexer as _lexer
+    seen = 0
+    for t in cf_texts:
+        bad = oracles.check_c01(ref, t, _lexer.tokenize)
+        if bad and seen < 5:
+            seen += 1
+            lzv.append({'kind': bad[0], 'sig': 'casefold-equivalent|' + str(bad[1])[:60], 'detail': bad[2], 'text': t, 'size': len(t)})
     cov = {
-        'evaluations': merged['n'] + lz['schedules'],
+        'evaluations': merged['n'] + lz['schedules'] + ci['cases'] + cf['texts'],
+        'own_lexer_configurations': ci, 'casefold_equivalents': cf,
         'distinct_nontrivial': merged['distinct'],
         'lazy_streams': lz,
         'rule': 'every string of 1..n fragments over each alphabet (CLS: one representative per '
@@ -133,7 +213,10 @@ def run(tier, seed):
                   'keywords.SQL_REGEX at each position and types words by its own ordered lookup in '
                   'the nine tables; every 97th case also as utf-8 bytes / bytes+encoding / StringIO; '
                   'lazy_streams: two or three token streams held at the same time and advanced in every order '
-                  '(vlib/gensched.py) each yield exactly what they yield alone',
+                  '(vlib/gensched.py) each yield exactly what they yield alone; own_lexer_configurations: the same '
+                  'oracle with a reference scan over the caller\'s own rule and keyword tables; casefold_equivalents: '
+                  'non-ASCII letters that IGNORECASE identifies with an ASCII letter, substituted into every keyword '
+                  'phrase and dictionary word',
         'bound': {'tier': tier, 'max_code_points': 4 if tier == 'thorough' else 3},
     }
     for v in lzv:
